@@ -14,54 +14,11 @@ SSF_ESCAPE = "C15.ssf_middleware.raises_before_or_while_delegating"
 HS_KEY = "C15.hyperslab_outside_shape.200_then_body_raises"
 
 
-def bad_hyperslab_class(spec, q):
-    """class of the open finding HS_KEY (a predicate on the request alone): the constraint parses and some projected
-    array / grid / structure member carries a hyperslab that does not lie inside its shape - more indices than dimensions,
-    a start at or beyond the extent, a stop beyond the extent, an empty / inverted / negative range, or a stride < 1"""
-    from pydap.parsers import parse_ce
-    try:
-        proj, _sel = parse_ce(q)
-    except Exception:
-        return False
-    shapes = {}
-    for v in spec["vars"]:
-        if v["k"] == "b":
-            shapes.setdefault(v["name"], []).append(v["shape"])
-        elif v["k"] == "st":
-            for m in v["members"]:
-                shapes.setdefault(m["name"], []).append(m["shape"])
-        elif v["k"] == "g":
-            shapes.setdefault(v["name"], []).append(v["array"]["shape"])
-            for m in [v["array"]] + v["maps"]:
-                shapes.setdefault(m["name"], []).append(m["shape"])
-    sliced = []
-    for p in proj:
-        if isinstance(p, str):
-            continue
-        for name, sl in p:
-            if sl:
-                # a variable projected twice with a hyperslab: the second is applied to the already sliced variable
-                if name in sliced:
-                    return True
-                sliced.append(name)
-            for shape in shapes.get(name, []):
-                if len(sl) > len(shape):
-                    return True
-                for s_, n in zip(sl, shape):
-                    if not isinstance(s_, slice):
-                        continue
-                    start = 0 if s_.start is None else s_.start
-                    stop = n if s_.stop is None else s_.stop
-                    if start < 0 or start >= n or stop > n or stop <= start or (s_.step is not None and s_.step < 1):
-                        return True
-    return False
-
-
-def hs_witness():
+def hs_witness_request():
+    """the witness of the repaired finding HS_KEY: /d.dods?a[20] on Int32 a[3] answered 200 and the body raised"""
     BaseHandler, _ = load()
     spec = {"name": "d", "vars": [{"k": "b", "name": "a", "dt": "i4", "shape": [3], "dims": [], "data": [5, 6, 7]}]}
-    res = G.run_request(BaseHandler(G.build(spec)), "/d.dods", "a[20]")
-    return res["status"] == 200 and bool(res["body_exc"])
+    return G.run_request(BaseHandler(G.build(spec)), "/d.dods", "a[20]")
 
 
 def load():
@@ -93,8 +50,7 @@ def canon_impl(res):
                 head, _, payload = body.partition(b"Data:\n")
                 _, decl, _ = G.parse_dds(head.decode("ascii"))
                 vals = G.decode_dods_values(decl, payload)
-                txt = " ".join(str(int(v)) if float(v).is_integer() else repr(v) for v in vals)
-                body = head + b"Data:\n" + txt.encode()
+                body = head + b"Data:\n" + G.wire_text(vals).encode()
             except Exception as e:
                 return "ok:dods:undecodable:%s" % type(e).__name__
         return "ok:%s:%s" % (kind, hexb(body))
@@ -222,7 +178,7 @@ def explore(ctx, tier, search=False):
                 continue
             # dmr / html / ver are registered responses too: a valid constraint must give a readable body there as well
             valid = kind == "valid" and pcls in ("known-ext", "other-ext")
-            hs_cls = HS_KEY if bad_hyperslab_class(spec, q) else None
+            hs_cls = None      # the finding HS_KEY is repaired: a 200 whose body raises is a violation wherever it occurs
             case = {"app": "handler", "path": path, "query": q, "dataset": sx, "class": kind + "/" + pcls}
             verdict = judge(ctx, res, path, q, valid, "handler", case, hs_cls=hs_cls)
             impl = canon_impl(res)
@@ -266,7 +222,7 @@ def run(ctx):
     ctx.proof_phase()
     table_cases(ctx)
     explore(ctx, ctx.tier)
-    return ctx.finish(search=lambda c: explore(c, "thorough", search=True), witnesses={SSF_ESCAPE: ssf_witness, HS_KEY: hs_witness})
+    return ctx.finish(search=lambda c: explore(c, "thorough", search=True), witnesses={SSF_ESCAPE: ssf_witness})
 
 
 def ssf_witness():
@@ -327,19 +283,27 @@ def spec_from_sexp(sx):
     def s(x):
         return bytes.fromhex(x[1:]).decode()
 
+    def val(x):
+        return s(x) if x.startswith("x") else int(x)
+
     def base(b):
         return {"k": "b", "name": s(b[1]), "dt": inv[s(b[2])], "shape": [int(x) for x in b[3]], "dims": [s(x) for x in b[4]],
-                "data": [int(x) for x in b[5]]}
+                "data": [val(x) for x in b[5]]}
+
+    def member(m):
+        if m[0] == "st":
+            return {"k": "st", "name": s(m[1]), "members": [base(b) for b in m[2]]}
+        return base(m)
 
     vars_ = []
     for v in tree[2]:
         if v[0] == "b":
             vars_.append(base(v))
         elif v[0] == "st":
-            vars_.append({"k": "st", "name": s(v[1]), "members": [base(m) for m in v[2]]})
+            vars_.append({"k": "st", "name": s(v[1]), "members": [member(m) for m in v[2]]})
         elif v[0] == "g":
             vars_.append({"k": "g", "name": s(v[1]), "array": base(v[2]), "maps": [base(m) for m in v[3]]})
         else:
             vars_.append({"k": "sq", "name": s(v[1]), "cols": [(s(c[0]), inv[s(c[1])]) for c in v[2]],
-                          "rows": [[int(x) for x in r] for r in v[3]]})
+                          "rows": [[val(x) for x in r] for r in v[3]]})
     return {"name": s(tree[1]), "vars": vars_}
